@@ -148,7 +148,12 @@ func Verif_C03_S4_RestartLayout() {
 // same blocks, seeds and write offsets after the list is rebuilt from the state file.
 func Verif_C03_S5_RestartRoundTrip() { verifScenarioRestartRoundTrip() }
 
-
 // Verif_C03_S6_StateFileRoundTrip: the state a graceful shutdown leaves behind is read
 // back completely by the next start, also when it is large (thousands of epochs).
 func Verif_C03_S6_StateFileRoundTrip() { verifScenarioStateFileRoundTrip() }
+
+// Verif_C03_S7_EpochBookkeeping: what makes an acknowledged upload part of a committed
+// epoch is the put finalizer's epoch bookkeeping in the persistent block list (the epoch is
+// counted by the LAST block, is not part of a sync already under way, covers the blob's
+// block): the state file a shutdown writes is derived from exactly these counters.
+func Verif_C03_S7_EpochBookkeeping() { verifScenarioPBLFinalizer() }
